@@ -11,6 +11,8 @@ area = "codec"
 driver = "drv_codec"
 cxx = False
 fixed_lines = 1
+# allocation failures are injected through a wrapped malloc (harness/drv_codec.c)
+link_extra = ["-Wl,--wrap=malloc"]
 lean_modules = ["Driver.Codec"]
 CODECS = ["cobs", "cobs/r", "cobs/zpe", "cobs/zpe+r", "command"]
 rule = ("scripts = 'enc new <codec> <cap>' then direct encoder calls on a caller-granted window (push/more/cap/term) "
@@ -18,7 +20,9 @@ rule = ("scripts = 'enc new <codec> <cap>' then direct encoder calls on a caller
         "('apush ...'), or 'py <msg> <frame of mpt.py:encode_cobs>'.  Stream 1 (exhaustive) = every message over "
         "{00,01,1f,20,df,e0,ff} up to length 4 (quick) / 5 (thorough) x 5 framings, one push, exact-fit window; "
         "stream 2 = boundary-directed run structures (lengths 30..32, 222..225, 253..256, 508..510) x chunkings x "
-        "capacity schedules (ample, exact, byte-wise growth); stream 2b = array pushes that end a maximal block at the "
+        "capacity schedules (ample, exact, byte-wise growth); stream 2d = allocation refused at the 1st/2nd/3rd malloc "
+        "of an mpt_array_push call (entry reservation, in-loop growth for pieces ending on the rounded buffer size, "
+        "termination) followed by a retry; stream 2b = array pushes that end a maximal block at the "
         "buffer end; stream 2c = deletion ('del k': abort of the message in progress incl. one with finished blocks, "
         "removal of 0..3 finished frames, too many) x 5 framings x window/array, and calls with a NULL window; stream 3 = random structured messages incl. rejected "
         "command text.  Non-trivial = a script in which a frame was finished AND (a block of maximal length was "
@@ -295,6 +299,23 @@ def scripts(tier, seed, scale=1):
                 out.append(("ap:%s:%d:%d" % (codec, l1, l2),
                             ["apush new " + codec, "apush push " + gen.hexs(first), "apush push " + gen.hexs(second),
                              "apush term", "apush check", "apush push " + gen.hexs(second[:full]), "apush term", "apush check"]))
+    # ---- stream 2d: refused allocations inside mpt_array_push (wrapped malloc): at function entry, in the retry loop
+    # (a piece that ends exactly on the rounded buffer size needs an in-loop growth), at the termination; then a retry
+    from . import c03 as _c03
+    for codec in CODECS:
+        for m1 in ([], [0x61, 0x61], [0x61, 0, 0x62, 0x63, 0x64]):
+            m1c = [b or 0x2e for b in m1] if codec == "command" else m1
+            done = (len(m1c) + 1) if codec == "command" else len(_c03.ref_encode(codec, m1c))
+            for k in (2, 3, 8):
+                L = 128 * k - 64 - done
+                piece = [1 + (i % 200) for i in range(L)]
+                for fail in (1, 2, 3):
+                    lines = ["apush new " + codec]
+                    if m1c:
+                        lines.append("apush push " + gen.hexs(m1c))
+                    lines += ["apush term", "apush check", "apush failpush %d %s" % (fail, gen.hexs(piece)), "apush more", "apush more",
+                              "apush failterm %d" % fail, "apush term", "apush check", "apush push 6465", "apush term", "apush check"]
+                    out.append(("af:%s:%d:%d:%d" % (codec, len(m1c), k, fail), lines))
     # ---- stream 2c: message deletion (abort of the message in progress, removal of finished frames) and the
     # uninitialized window (NULL base)
     rd = gen.rng(id, tier, seed, "delete")
@@ -413,8 +434,26 @@ class _XA:
                         lines.append("xa push " + gen.hexs(m2c[len(half):]))
                     lines += ["xa term", "xa data", "xa shift 0", "xa data"]
                     out.append(("xa:%s:%d:%d" % (codec, i, j), lines))
-        # exact consumption of frames (lengths computed by the reference encoder), compaction, message pushes
         from . import c03
+        # compaction (shift 0) between two pieces of a message, behind a consumed prefix: the open block moves too
+        for codec in CODECS:
+            for m1 in ([0x61] * 5, [0x61] * 100, [0x61, 0, 0x62]):
+                for m2, cuts in (([0x70 + (i % 9) for i in range(40)], (1, 7, 39)),
+                                 ([1 + (i % 250) for i in range(120)] + [0] + [2 + (i % 200) for i in range(179)], (40, 121, 150, 299)),
+                                 ([9, 0, 0, 8, 7], (1, 2, 3, 4))):
+                    if codec == "command":
+                        m1c, m2c = [b or 0x2e for b in m1], [b or 0x2e for b in m2]
+                    else:
+                        m1c, m2c = m1, m2
+                    fl = len(m1c) + 1 if codec == "command" else len(c03.ref_encode(codec, m1c))
+                    for cut in cuts:
+                        lines = ["xa new " + codec, "xa push " + gen.hexs(m1c), "xa term", "xa data", "xa shift %d" % fl,
+                                 "xa push " + gen.hexs(m2c[:cut]), "xa shift 0", "xa data"]
+                        if m2c[cut:]:
+                            lines.append("xa push " + gen.hexs(m2c[cut:]))
+                        lines += ["xa term", "xa data", "xa shift 0", "xa data"]
+                        out.append(("xac:%s:%d:%d:%d" % (codec, len(m1c), len(m2c), cut), lines))
+        # exact consumption of frames (lengths computed by the reference encoder), compaction, message pushes
         n = (60 if tier == "quick" else 600) * scale
         for k in range(n):
             codec = r.choice(CODECS)
